@@ -512,8 +512,9 @@ fn harness_fill_external(m: &mut MemoryImage) {
         // native replay only: sparse initial contents of external memory
         let n = vin(508);
         for i in 0..n {
+            // raw physical cell (as a loaded system image would fill it): no mirror folding, no read-only check
             let a = vin(3000 + 2 * i);
-            m.write_external_byte(a, vin(3001 + 2 * i) as u8);
+            m.write_external_slice(a as usize, &[vin(3001 + 2 * i) as u8]);
         }
     }
 }
@@ -659,6 +660,102 @@ pub extern "C" fn harness_consts() -> i32 {
     0
 }
 
+// ---------------------------------------------------------------------------------------------
+// Interrupt controller (C12): one CoreRuntime::step from an arbitrary controller state.
+// Inputs: 700..707 program bytes at PC (720); 708..710 interrupt vector bytes; 721 S, 722 F, 723 IMR,
+// 724 ISR, 725 irq_pending, 726 halted, 727 off, 728 in_interrupt, 729 key_irq_latched,
+// 730 timers enabled, 731/732 MTI/STI period, 733/734 next MTI/STI, 735 cycle count, 736 kb irq enabled,
+// 737..746 ten bytes around S (s-5..s+4, seeded), 747 BA, 748 I.
+use sc62015_core::CoreRuntime;
+
+static mut IRQ_RT: *mut CoreRuntime = std::ptr::null_mut();
+
+/// Symbolic run: preparation (fork-free) and the step are separate entries so that every path resumes
+/// from a snapshot of the prepared machine; the native replay calls harness_irq (both in one).
+#[no_mangle]
+pub extern "C" fn harness_irq_prepare() -> i32 {
+    let mut rt = Box::new(CoreRuntime::new());
+    let pc = vin(720) & 0xFFFFF;
+    let prog: Vec<u8> = (0..8u32).map(|i| vin(700 + i) as u8).collect();
+    rt.memory.write_external_slice(pc as usize, &prog);
+    let s = vin(721);
+    if vin(749) != 0 {
+        // native replay only: the symbolic run leaves external memory arbitrary (the vector and the ten bytes
+        // around S are whatever the symbolic array holds there)
+        for i in 0..3u32 {
+            rt.memory.write_external_byte(0xFFFFA + i, vin(708 + i) as u8);
+        }
+        for i in 0..10u32 {
+            rt.memory.write_external_byte(s.wrapping_sub(5).wrapping_add(i), vin(737 + i) as u8);
+        }
+    }
+    rt.state.set_pc(pc);
+    rt.state.set_reg(RegName::S, s);
+    rt.state.set_reg(RegName::F, vin(722));
+    rt.state.set_reg(RegName::BA, vin(747));
+    rt.state.set_reg(RegName::I, vin(748));
+    {
+        // IMR / ISR are loaded as a block: write_internal_byte would run the IMR/ISR bit-watch hook (tracing bookkeeping
+        // that branches on every changed bit)
+        let mut blob = vec![0u8; 256];
+        blob[0xFB] = vin(723) as u8;
+        blob[0xFC] = vin(724) as u8;
+        rt.memory.load_internal(&blob);
+    }
+    rt.state.set_reg(RegName::IMR, vin(723));
+    rt.timer.irq_pending = vin(725) & 1 != 0;
+    rt.state.set_halted(vin(726) & 1 != 0);
+    if vin(727) & 1 != 0 {
+        rt.state.set_power_state(sc62015_core::llama::state::PowerState::Off);
+    }
+    rt.timer.in_interrupt = vin(728) & 1 != 0;
+    rt.timer.key_irq_latched = vin(729) & 1 != 0;
+    rt.timer.enabled = vin(730) & 1 != 0;
+    rt.timer.mti_period = vin(731) as u64;
+    rt.timer.sti_period = vin(732) as u64;
+    rt.timer.next_mti = vin(733) as u64;
+    rt.timer.next_sti = vin(734) as u64;
+    rt.timer.kb_irq_enabled = vin(736) & 1 != 0;
+    unsafe {
+        IRQ_RT = Box::into_raw(rt);
+    }
+    0
+}
+
+#[no_mangle]
+pub extern "C" fn harness_irq_step() -> i32 {
+    let rt: &mut CoreRuntime = unsafe { &mut *IRQ_RT };
+    let s = vin(721);
+    let r = rt.step(1);
+    vout(0, r.is_ok() as u32);
+    vout(1, rt.state.pc());
+    vout(2, rt.state.get_reg(RegName::S));
+    vout(3, rt.state.get_reg(RegName::F));
+    vout(4, rt.memory.read_internal_byte(0xFB).unwrap_or(0) as u32);
+    vout(5, rt.memory.read_internal_byte(0xFC).unwrap_or(0) as u32);
+    vout(6, rt.timer.irq_pending as u32);
+    vout(7, rt.timer.in_interrupt as u32);
+    vout(8, rt.state.is_halted() as u32);
+    vout(9, rt.state.is_off() as u32);
+    for i in 0..10u32 {
+        vout(30 + i, rt.memory.load(s.wrapping_sub(5).wrapping_add(i), 8).unwrap_or(0x100));
+    }
+    vout(20, rt.timer.irq_total);
+    vout(21, rt.timer.key_irq_latched as u32);
+    vout(15, rt.state.get_reg(RegName::IMR));
+    vout(16, rt.instruction_count() as u32);
+    vout(17, rt.timer.next_mti as u32);
+    vout(18, rt.timer.next_sti as u32);
+    vout(19, rt.cycle_count() as u32);
+    0
+}
+
+#[no_mangle]
+pub extern "C" fn harness_irq() -> i32 {
+    harness_irq_prepare();
+    harness_irq_step()
+}
+
 /// Entry-point dispatch for the native replay binary.
 pub fn dispatch(name: &str) -> i32 {
     match name {
@@ -670,6 +767,7 @@ pub fn dispatch(name: &str) -> i32 {
         "harness_lcd_op" => harness_lcd_op(),
         "harness_lcd_pixels" => harness_lcd_pixels(),
         "harness_mem" => harness_mem(),
+        "harness_irq" => harness_irq(),
         "harness_opcode_entry" => harness_opcode_entry(),
         "harness_consts" => harness_consts(),
         "harness_kb" => harness_kb(),
